@@ -9,6 +9,7 @@ package main
 
 import (
 	"fmt"
+	"os"
 	"sort"
 	"strings"
 
@@ -369,6 +370,8 @@ func init() {
 
 // ---------------------------------------------------------------- concurrent part (consim workload "index")
 
+var idxTrace = os.Getenv("VERIF_TRACE") != ""
+
 func (cr *ConRun) runIndex() {
 	cfg := &cr.Cfg
 	path := cr.Dir + "/db"
@@ -392,7 +395,29 @@ func (cr *ConRun) runIndex() {
 	frames := []int{32, 64, 128}[wr.Intn(3)]
 	opsPer := 10 + wr.Intn(60)
 	space := 60 + wr.Intn(300)
+	// drain variant (skip lists): wide keys (few entries per node), sparse never-touched keys, every
+	// task inserts all of its keys and deletes them again: nodes become empty and are unlinked while
+	// other tasks walk through / modify their neighbours
+	drain := kind != "btree" && wr.Chance(0.35)
+	drainPad := 150
+	if drain {
+		kt = TVarchar
+		space = 40 + wr.Intn(120)
+		drainPad = []int{150, 400, 800}[wr.Intn(3)]
+		if v := os.Getenv("VERIF_DRAINPAD"); v != "" {
+			fmt.Sscan(v, &drainPad)
+		}
+	}
 	// never-touched keys (owner -1) and per-task key sets: key index i belongs to task i % (nTasks+1)
+	owner := func(i int) int {
+		if drain {
+			if i%(7*nTasks) == 0 {
+				return -1
+			}
+			return i % nTasks
+		}
+		return i%(nTasks+1) - 1
+	}
 	keyOf := func(i int) any {
 		switch kt {
 		case TInt:
@@ -401,7 +426,9 @@ func (cr *ConRun) runIndex() {
 			return float32(i) / 2
 		default:
 			b := fmt.Sprintf("k%05d", i)
-			if i%3 == 0 {
+			if drain {
+				b += strings.Repeat("w", drainPad+i%60)
+			} else if i%3 == 0 {
 				b += strings.Repeat("y", 1+i%genKeyMaxPad)
 			}
 			return b
@@ -415,9 +442,42 @@ func (cr *ConRun) runIndex() {
 	for t := 0; t < nTasks; t++ {
 		mine := []int{}
 		for i := 0; i < space; i++ {
-			if i%(nTasks+1) == t+1 {
+			if owner(i) == t {
 				mine = append(mine, i)
 			}
+		}
+		if drain {
+			rounds := 1 + wr.Intn(2)
+			for rd := 0; rd < rounds; rd++ {
+				for _, j := range wr.permN(len(mine)) {
+					progs[t] = append(progs[t], top{"ins", mine[j]})
+					if wr.Chance(0.1) {
+						progs[t] = append(progs[t], top{"get", mine[j]})
+					}
+				}
+				if wr.Chance(0.5) {
+					progs[t] = append(progs[t], top{"scan", 0})
+				}
+				// delete in key order, reverse key order or random order
+				ord := wr.permN(len(mine))
+				switch wr.Intn(3) {
+				case 0:
+					for j := range ord {
+						ord[j] = j
+					}
+				case 1:
+					for j := range ord {
+						ord[j] = len(mine) - 1 - j
+					}
+				}
+				for _, j := range ord {
+					progs[t] = append(progs[t], top{"del", mine[j]})
+					if wr.Chance(0.1) {
+						progs[t] = append(progs[t], top{"get", mine[wr.Intn(len(mine))]})
+					}
+				}
+			}
+			continue
 		}
 		present := map[int]bool{}
 		for j := 0; j < opsPer; j++ {
@@ -447,7 +507,7 @@ func (cr *ConRun) runIndex() {
 	}
 	var fixed []int // never-touched keys, inserted during set-up
 	for i := 0; i < space; i++ {
-		if i%(nTasks+1) == 0 {
+		if owner(i) == -1 {
 			fixed = append(fixed, i)
 		}
 	}
@@ -474,6 +534,9 @@ func (cr *ConRun) runIndex() {
 				present := map[int]bool{}
 				for _, op := range progs[t] {
 					key := keyOf(op.ki)
+					if idxTrace {
+						fmt.Fprintf(os.Stderr, "step %d task %d %s %d\n", simrt.S.Steps(), t, op.kind, op.ki)
+					}
 					switch op.kind {
 					case "ins":
 						env.idx.InsertEntry(env.keyTuple(key), mkRID(op.ki), txn)
@@ -583,6 +646,9 @@ func (cr *ConRun) runIndex() {
 	cr.stat("preemptions", int(cr.Res.Preemptions))
 	cr.stat("outcome:"+cr.Res.Outcome, 1)
 	cr.stat("index_kind:"+kind, 1)
+	if drain {
+		cr.stat("index_drain_runs", 1)
+	}
 	switch cr.Res.Outcome {
 	case "deadlock":
 		cr.Viol = append(cr.Viol, Violation{Property: "C17", Class: "deadlock", Detail: kind + " index: " + strings.Join(firstN(cr.Res.Blocked, 10), "; ")})
